@@ -520,6 +520,23 @@ let cmd_wbf (args : string list) : string =
 (* ---------- the state of a document at a snapshot (Crdt/Snapshot.v: encode_state_from_snapshot, write_blocks_to, snapshot) ---------- *)
 let b01 b = if b then "1" else "0"
 let sort_clients l = List.sort (fun (a, _) (b, _) -> compare (String.length (hex_of_n a), hex_of_n a) (String.length (hex_of_n b), hex_of_n b)) l
+(* the wire form of an item with an origin does not name its parent (the decoder takes it from the origin item): fill it in,
+   so that a unit compares equal to itself after the block it lies in was split *)
+let wbf_resolve_parents (st : (n * (block * bool) list) list) =
+  let find (i : id) = List.find_map (fun (c, bs) -> if c <> i.cl then None else
+    List.find_map (fun (b, _) -> match b with
+      | BItem (j, _, _, _, _, _) when N.leb j.ck i.ck && N.ltb i.ck (N.add j.ck (block_len b)) -> Some b
+      | _ -> None) bs) st in
+  let rec par (d : int) (b : block) = match b with
+    | BItem (_, o, ro, PUnknown, ps, _) when d < 100000 ->
+      (match (match o with Some x -> Some x | None -> ro) with
+       | Some x -> (match find x with Some bb -> par (d + 1) bb | None -> (PUnknown, ps))
+       | None -> (PUnknown, ps))
+    | BItem (_, _, _, p, ps, _) -> (p, ps)
+    | _ -> (PUnknown, None) in
+  List.map (fun (c, bs) -> (c, List.map (fun (b, d) -> match b with
+    | BItem (i, o, ro, _, _, ct) -> let (p, ps) = par 0 b in (BItem (i, o, ro, p, ps, ct), d)
+    | _ -> (b, d)) bs)) st
 let cmd_snp (args : string list) : string =
   let store_of hx = let fb = bytes_of_hex hx in (match decode_update_v1 (fuel_for fb) fb with Ok (u, _) -> Some (wbf_store_of u) | _ -> None) in
   match args with
@@ -537,25 +554,8 @@ let cmd_snp (args : string list) : string =
      | Some st -> let (sv, ds) = snp_snapshot_sorted st in "ok " ^ print_idset (sort_clients ds) ^ "@" ^ print_sv sv
      | None -> "err undecodable")
   | ["ext"; f0; f1] ->
-    (* the wire form of an item with an origin does not name its parent (the decoder takes it from the origin item): fill it in,
-       so that a unit compares equal to itself after the block it lies in was split *)
-    let resolve (st : (n * (block * bool) list) list) =
-      let find (i : id) = List.find_map (fun (c, bs) -> if c <> i.cl then None else
-        List.find_map (fun (b, _) -> match b with
-          | BItem (j, _, _, _, _, _) when N.leb j.ck i.ck && N.ltb i.ck (N.add j.ck (block_len b)) -> Some b
-          | _ -> None) bs) st in
-      let rec par (d : int) (b : block) = match b with
-        | BItem (_, o, ro, PUnknown, ps, _) when d < 100000 ->
-          (match (match o with Some x -> Some x | None -> ro) with
-           | Some x -> (match find x with Some bb -> par (d + 1) bb | None -> (PUnknown, ps))
-           | None -> (PUnknown, ps))
-        | BItem (_, _, _, p, ps, _) -> (p, ps)
-        | _ -> (PUnknown, None) in
-      List.map (fun (c, bs) -> (c, List.map (fun (b, d) -> match b with
-        | BItem (i, o, ro, _, _, ct) -> let (p, ps) = par 0 b in (BItem (i, o, ro, p, ps, ct), d)
-        | _ -> (b, d)) bs)) st in
     (match store_of f0, store_of f1 with
-     | Some a, Some b -> let (a, b) = (resolve a, resolve b) in "ok ext=" ^ b01 (snp_extends_b a b) ^ " holes=" ^ b01 (not (snp_no_holes a))
+     | Some a, Some b -> let (a, b) = (wbf_resolve_parents a, wbf_resolve_parents b) in "ok ext=" ^ b01 (snp_extends_b a b) ^ " holes=" ^ b01 (not (snp_no_holes a))
      | _ -> "err undecodable")
   | _ -> "err badcmd"
 
@@ -610,10 +610,14 @@ let cmd_gcb (args : string list) : string =
      | Ok (u, _) ->
        let fl = if flags = "_" then [] else List.map (fun cs -> match String.split_on_char '=' cs with
          | [c; fs] -> (n_of_hex c, String.split_on_char ',' fs) | _ -> failwith "gcb flags") (String.split_on_char ';' flags) in
-       let clients = List.map (fun (c, bs) ->
+       (* parents the wire form leaves out are filled in from the origin item (Block::try_squash relies on self.right == other,
+          which Crdt/Blocks.v states as "same parent, same key") *)
+       let resolved = wbf_resolve_parents (List.map (fun (c, bs) -> (c, List.map (fun b -> (b, false)) bs)) u.u_blocks) in
+       let clients = List.map (fun (c, bs0) ->
+         let bs = List.map fst bs0 in
          let fs = (try List.assoc c fl with Not_found -> failwith "gcb flags client") in
          if List.length fs <> List.length bs then failwith "gcb flags length";
-         (c, List.map2 (fun b f -> { gcb_blk = b; gcb_del = (f.[0] = '1'); gcb_keep = (f.[1] = '1'); gcb_cnt = (f.[2] = '1') }) bs fs)) u.u_blocks in
+         (c, List.map2 (fun b f -> { gcb_blk = b; gcb_del = (f.[0] = '1'); gcb_keep = (f.[1] = '1'); gcb_cnt = (f.[2] = '1') }) bs fs)) resolved in
        let st = { gcb_clients = clients; gcb_branches = gcb_parse_branches branches } in
        let ods = if ods = "-" then None else Some (List.map (fun (c, rs) -> (c, List.map (fun ((a, b), ()) -> (a, b)) rs)) (adl_parse_ds ods)) in
        let hyp = " total_ok=" ^ b01 (gcb_total_ok st) ^ " clients_ok=" ^ b01 (gcb_clients_ok st) in
@@ -623,7 +627,11 @@ let cmd_gcb (args : string list) : string =
           let units ids = String.concat "," (List.concat_map (fun (i : id) -> List.init (len_of i) (fun j -> print_ck (i.cl, N.add i.ck (n_of_int j)))) ids) in
           let pb (p, b) = (match p with PNamed nm -> "r" ^ rawhex nm | PId i -> "i" ^ print_ck (i.cl, i.ck) | PUnknown -> "?") ^ "~" ^ units b.gcb_seq ^ "~" ^
             String.concat "|" (List.sort compare (List.map (fun (k, ids) -> rawhex k ^ "=" ^ units (List.rev ids)) b.gcb_map)) in
-          "ok " ^ gcb_print_units (gcb_cells_view st') ^ " " ^ String.concat "/" (List.sort compare (List.map pb (gcb_branches_view st'))) ^ hyp
+          (* the block boundaries after the squash of the commit that follows (gcb_gc_api = collect_all + merge_blocks) *)
+          let api = (match gcb_gc_api st (match ods with None -> None | Some l -> Some (List.map (fun (c, rs) -> (c, List.map (fun (a, b) -> ((a, b), ())) rs)) l)) with
+            | Adl_ok st2 -> String.concat ";" (List.map (fun (c, bs) -> hex_of_n c ^ "[" ^ String.concat "," (List.map (fun (((k, l), kd), _) -> hex_of_n k ^ "+" ^ hex_of_n l ^ ":" ^ hex_of_n kd) bs) ^ "]") (gcb_cells_view st2))
+            | Adl_panic -> "panic") in
+          "ok " ^ gcb_print_units (gcb_cells_view st') ^ " " ^ String.concat "/" (List.sort compare (List.map pb (gcb_branches_view st'))) ^ " api=" ^ api ^ hyp
         | Adl_panic -> "panic" ^ hyp)
      | _ -> "err undecodable")
   | _ -> "err badcmd"
